@@ -74,11 +74,101 @@ class GcModel:
         prims = self.prims()
         if extra_prims:
             prims.update(extra_prims)
+        from gcv import layout_terms
+        for k, v in layout_terms.flag_prims(prog).items():
+            prims.setdefault(k, v)
         self.ip = Interp(prog, prims=prims, opaque_call=self.opaque_call, strict=strict)
+        self.ip.header_read = self._header_read
+        self.ip.header_write = self._header_write
+        self._codec = None
         self.ctx_def = "context::Context"
         a = prog.all_adts[self.ctx_def]
         self.ctx_fields = [f["name"] for f in a["variants"][0]["fields"]]
         self._resolve_roles(a)
+
+    # ------------------------------------------------------------------ the header word
+    # The accessors GcHeader::{color, set_color, needs_trace, set_needs_trace, is_live, set_live, next, set_next} are
+    # primitives of the model (their encode/decode round trips are decided by the flag-encoding analysis of C17). Any
+    # *other* code that reads or writes the header's fields directly (a new accessor testing one bit of the tagged
+    # word, say) is interpreted from its own MIR over the concrete word: the abstract (colour, needs-trace, live) of
+    # the object is encoded into the low bits with the code read off the tree's own getters, and a written word is
+    # decoded back with them.
+    def header_codec(self):
+        if self._codec is not None:
+            return self._codec
+        from gcv import layout_terms as LT
+        prog = self.prog
+        ip = Interp(prog, prims=LT.flag_prims(prog), strict=True)
+        ip.lenient_std = False
+        dec = {}
+        try:
+            for low in range(16):
+                st0, _ = LT._hdr_state(prog, low)
+                c = LT._run1(ip, prog, "gc_ptr::GcHeader::color", [ref(("hdr",), ())], st0.fork()).value
+                nt = LT._run1(ip, prog, "gc_ptr::GcHeader::needs_trace", [ref(("hdr",), ())], st0.fork()).value
+                lv = LT._run1(ip, prog, "gc_ptr::GcHeader::is_live", [ref(("hdr",), ())], st0.fork()).value
+                if c[0] != "adt" or nt[0] != "i" or lv[0] != "i":
+                    raise I.InterpError("getters do not decode tag bits %d" % low)
+                dec[low] = (CSHORT[variant_name(prog, "types::GcColor", c[2])], nt[1], lv[1])
+        except (I.InterpError, I.Unmodelled, KeyError) as e:
+            raise I.Unmodelled("raw access to a GcHeader field, and the header word's code could not be read off the "
+                               "getters (%s)" % e)
+        enc = {}
+        for low in sorted(dec):
+            enc.setdefault(dec[low], low)
+        a = prog.all_adts["gc_ptr::GcHeader"]
+        names = [f["name"] for f in a["variants"][0]["fields"]]
+        self._codec = (enc, dec, names)
+        return self._codec
+
+    def _header_read(self, ip, st, oid, path):
+        enc, dec, names = self.header_codec()
+        o = st.objs[oid]
+        if o.get("freed"):
+            st.event("use_after_free", oid, "header word")
+        if not path:
+            raise I.Unmodelled("a GcHeader read as a whole value")
+        f = names[path[0]]
+        if f == "tagged_vtable":
+            key = (o["colour"], o["nt"], o["live"])
+            if key not in enc:
+                return TOP
+            return ("addr", "vtable", enc[key])
+        if f == "next":
+            n = o["next"]
+            if n == "?":
+                return TOP
+            v = none() if n is None else some(obj(n))
+            for step in path[1:]:
+                v = ip.project(v, step)
+            return v
+        return TOP
+
+    def _header_write(self, ip, st, oid, path, val):
+        enc, dec, names = self.header_codec()
+        o = st.objs[oid]
+        if o.get("freed"):
+            st.event("use_after_free", oid, "header word")
+        f = names[path[0]] if path else None
+        if f == "tagged_vtable":
+            if val[0] != "addr" or val[1] != "vtable" or val[2] not in dec:
+                raise I.InterpError("the tagged vtable word of object %s is overwritten with %r" % (oid, val))
+            c, nt, lv = dec[val[2]]
+            if c != o["colour"]:
+                st.event("set_color", oid, o["colour"], c)
+                o["colour"] = c
+            if nt != o["nt"]:
+                st.event("set_needs_trace", oid, o["nt"], nt)
+                o["nt"] = nt
+            if lv != o["live"]:
+                st.event("set_live", oid, o["live"], lv)
+                o["live"] = lv
+            return
+        if f == "next" and len(path) == 1 and val[0] == "adt" and val[1] == OPT:
+            o["next"] = None if val[2] == 0 else (val[3][0][1] if val[3][0][0] == "obj" else "?")
+            st.event("set_next", oid, o["next"])
+            return
+        raise I.InterpError("raw write into field %r of a GcHeader" % (f,))
 
     # ------------------------------------------------------------------ which field of Context plays which role
     ROLES = ("metrics", "phase", "all", "sweep", "sweep_prev", "root_needs_trace", "gray", "gray_again")
@@ -466,6 +556,18 @@ class GcModel:
         for nme in ("allocated", "dropped", "freed", "marked", "traced", "untraced", "remembered"):
             P["metrics::Metrics::mark_gc_" + nme] = metric(nme)
         P["metrics::Metrics::allocation_debt"] = allocation_debt
+
+        def debt_predicate(ip, st, args, info):
+            # a Metrics method proven to ask `allocation_debt() > 0` (rules_debt.debt_predicates): a read of the debt
+            st.event("debt_read")
+            s2 = st.fork()
+            return [(st, "ret", I.I(1)), (s2, "ret", I.I(0))]
+        try:
+            from gcv import rules_debt
+            for fn in rules_debt.debt_predicates(m.prog):
+                P[fn] = debt_predicate
+        except Exception:
+            pass
         P["metrics::Metrics::finish_cycle"] = finish_cycle
         P["metrics::Metrics::new"] = metrics_new
         P["<metrics::Metrics as core::clone::Clone>::clone"] = metrics_new
